@@ -50,8 +50,9 @@ META = dict(
                'all single / quarter cores, random splits); the billed quantities are compared in exact integers with the instance\'s ACTUAL '
                'resources read from the resource objects (disk GiB x 1024, 1024/1024 of vm and ip fee, accelerator count x 1024, cores x 1000, '
                'memory MiB), not with what quantified_resources makes of the all-cores job: failure classes whole-worker-underbilled / '
-               '-overbilled, job-underbilled, packed-exceeds-instance, full-pool-worker-underbilled (each the run-time form of one of the '
-               'theorems above).',
+               '-overbilled, packed-exceeds-instance (the property text), and - only when a proof obligation or the tie is already broken, to '
+               'turn the broken theorem into a concrete input - job-underbilled and full-pool-worker-underbilled (run-time forms of '
+               'C13_job_share_floor / C13_pool_exact_packing, which say more than the property text).',
     level_note='Trusted: Coq kernel; the AST extractor harness/translate/c13_schema.py (class bodies -> formulas/schemas; fail-closed, and the real '
                'classes are run against the generated definitions on every run); JSON encode/decode taken as the identity on int/str/bool/dict '
                '(exercised through json.dumps/loads in the run); ProductVersions stubbed (resource names only). Pool workers whose core count '
@@ -633,8 +634,12 @@ def _instance_resources(r):
     return out
 
 
-def _check_config(c, r):
-    """the property's clauses on the real classes' output for one configuration; returns list of (key, what, case, expected, observed)"""
+def _check_config(c, r, strict=True):
+    """the property's clauses on the real classes' output for one configuration; returns list of (key, what, case, expected, observed).
+    The property TEXT bounds the billing from above (packed <= whole) and fixes the all-cores job (= the whole worker); the two clauses
+    `job-underbilled` and `full-pool-worker-underbilled` are the run-time forms of the PROVED theorems C13_job_share_floor /
+    C13_pool_exact_packing about the code as it is, i.e. more than the text demands: they are evaluated only with strict=True, which the
+    oracle sets when a proof obligation or the tie is already broken (to turn the broken theorem into a concrete input) and replay always."""
     out = []
     ck = _cfg_key(c)
     if r['create'] != 'ok':
@@ -684,7 +689,7 @@ def _check_config(c, r):
             out.append(('different-resources', 'a job without external disk is billed other resources than the whole worker', {'config': ck, 'job': job},
                         [nm for nm, _ in whole], [nm for nm, _ in b0]))
             continue
-        if inst is not None and 0 <= job[0] < cap:      # (the all-cores job: whole-worker-underbilled above)
+        if strict and inst is not None and 0 <= job[0] < cap:      # (the all-cores job: whole-worker-underbilled above)
             # no under-billing (C13_job_share_floor): the 1024ths billed are the job's exact share 1024*cpu/(cores*1000) rounded DOWN —
             # a whole 1024th or more below the share (or fewer millicores / MiB than the job has) is billed to nobody
             for (nm, q), (_, kind, unit, full) in zip(b0, inst):
@@ -733,7 +738,7 @@ def _check_config(c, r):
                                 {'config': ck, 'jobs': [c['jobs'][j] for j in p], 'resource': nm}, f'<= {full}', s))
                     break
                 # a pool worker packed EXACTLY with packable requests is billed in full (C13_pool_exact_packing)
-                if not c['job_private'] and total_cpu == cap and s < full and all(_is_packable(c['jobs'][j][0]) for j in p) \
+                if strict and not c['job_private'] and total_cpu == cap and s < full and all(_is_packable(c['jobs'][j][0]) for j in p) \
                         and (kind != 'mem' or total_mem == r['memory']):
                     out.append(('full-pool-worker-underbilled', f'packable jobs filling all {r["cores"]} cores of a pool worker are billed {s} of {nm}, '
                                                                 f'the instance has {full}: the rest is billed to nobody',
@@ -766,7 +771,7 @@ def oracle(ctx, budget):
             cores_hist[k] = cores_hist.get(k, 0) + 1
             if _instance_resources(r) is None:
                 unclassified += 1
-        for key, what, case, exp, obs in _check_config(c, r):
+        for key, what, case, exp, obs in _check_config(c, r, strict=budget > 1):
             fails.append(Failure(key, what, case, exp, obs))
     return fails, {'evaluations': n, 'distinct_nontrivial': len(distinct),
                    'rule': 'oracle: per configuration of the real classes (every machine type of both tables, job-private ones with jobs of any '
